@@ -3,6 +3,7 @@
 package webui
 
 import (
+	"io"
 	"net/http"
 
 	"github.com/inbucket/inbucket/v3/pkg/message"
@@ -14,6 +15,7 @@ var _ message.Manager
 var _ web.Context
 var _ = storage.ErrNotExist
 
+func ghost_wcontent(w io.Writer) vcTok       { panic("ghost") }
 func ghost_status(w http.ResponseWriter) int { panic("ghost") }
 
 // ---------------------------------------------------------------------------------------------
@@ -50,6 +52,8 @@ func ghost_status(w http.ResponseWriter) int { panic("ghost") }
 //@   ensures[readOnly] spec_noMutation(ctx.Manager, old(message.Ghost_nMarkSeen(ctx.Manager)), old(message.Ghost_nPurge(ctx.Manager)), old(message.Ghost_nRemove(ctx.Manager)))
 //@   ensures[missing404] message.Ghost_nSource(ctx.Manager) == old(message.Ghost_nSource(ctx.Manager)) + 1 && message.Ghost_lastErr(ctx.Manager) == storage.ErrNotExist ==>
 //@      err == nil && ghost_status(w) == 404
+//@   ensures[copiesSource C02] err == nil && message.Ghost_nSource(ctx.Manager) == old(message.Ghost_nSource(ctx.Manager)) + 1 && message.Ghost_lastErr(ctx.Manager) == nil ==>
+//@      ghost_wcontent(w) == vcTokCat(old(ghost_wcontent(w)), message.Ghost_lastSrcContent(ctx.Manager))
 //@   serves C14 C02
 
 //@ func MailboxViewAttach
